@@ -11,7 +11,7 @@ RULE = ("phase 1: every operation of harness/x_oom.c x allocator class {lib, sq,
         "whether the function containing the failing request has a proved clean-up ladder (LADDER_FUNCS); oracle: result is CIF_MEMORY_ERROR/CIF_ERROR, managed CIF and caller-owned objects dump "
         "unchanged, the repeated call succeeds, no sanitizer report, nothing leaked")
 CLASSES = ["lib", "sq", "icu"]
-MAXK = {"quick": 40, "thorough": 100000}      # quick: the first 40 (library class: 160) sites per (operation, class); thorough: all
+MAXK = {"quick": 40, "thorough": 100000}      # quick: the first 40 (library class: 160, SQLite class: 120) sites per (operation, class); thorough: all
 
 
 def generate(seed, tier):
@@ -40,7 +40,7 @@ def expand(reqs, impl, tier):
         if len(t) == 4 and t[3] == "0":
             n = _field(i, "n")
             if n and n.isdigit():
-                lim = MAXK[tier] * (4 if t[2] == "lib" else 1)
+                lim = MAXK[tier] * (4 if t[2] == "lib" else (3 if t[2] == "sq" else 1))   # SQLite: preparing one statement alone makes ~100 requests
                 for k in range(1, min(int(n), lim) + 1):
                     out.append("oom %s %s %d" % (t[1], t[2], k))
     return out
